@@ -37,6 +37,7 @@ type SV struct {
 	Desc  string        // provenance expression
 	Elems []SV          // tuple
 	M     map[int64]SV  // concrete map content (immutable, copy on write)
+	MS    map[string]SV // concrete content of a map with string keys
 	Fn    *ssa.Function // closure target
 	Bind  []SV          // closure bindings
 	Dyn   string        // dynamic type of an interface value, when known
@@ -998,6 +999,20 @@ func (ev *symEval) evalValue(fr *symFrame, st *symState, v ssa.Value) SV {
 			}
 			return v
 		}
+		if cur, ok := st.heap["smap:"+base.Desc]; ok && i.K == "str" && i.Known {
+			v, found := cur.MS[i.S]
+			var vt types.Type = x.Type()
+			if x.CommaOk {
+				vt = x.Type().(*types.Tuple).At(0).Type()
+			}
+			if !found {
+				v = zeroFor(vt)
+			}
+			if x.CommaOk {
+				return SV{K: "tuple", Desc: "lookup", Elems: []SV{v, symBool(found)}}
+			}
+			return v
+		}
 		d := base.Desc + "[" + i.Desc + "]"
 		if x.CommaOk {
 			return SV{K: "tuple", Desc: d, Elems: []SV{defaultFor(x.Type().(*types.Tuple).At(0).Type(), d), {K: "bool", Desc: "ok(" + d + ")"}}}
@@ -1256,6 +1271,20 @@ func (ev *symEval) evalValue(fr *symFrame, st *symState, v ssa.Value) SV {
 			st.heap["iter:"+id] = SV{K: "iterstate", N: 0, Elems: el, Desc: rv.Desc}
 			return SV{K: "iter", Desc: id}
 		}
+		if cur, ok := st.heap["smap:"+rv.Desc]; ok {
+			id := ev.fresh("iter")
+			var keys []string
+			for k := range cur.MS {
+				keys = append(keys, k)
+			}
+			sort.Strings(keys)
+			var el []SV
+			for _, k := range keys {
+				el = append(el, symStr(k))
+			}
+			st.heap["iter:"+id] = SV{K: "iterstate", N: 0, Elems: el, Desc: rv.Desc, S: "smap"}
+			return SV{K: "iter", Desc: id}
+		}
 		return symOpaque("range(" + rv.Desc + ")")
 	case *ssa.Next:
 		it := ev.val(fr, x.Iter)
@@ -1265,8 +1294,13 @@ func (ev *symEval) evalValue(fr *symFrame, st *symState, v ssa.Value) SV {
 				return SV{K: "tuple", Desc: "next", Elems: []SV{symBool(false), zeroFor(tup.At(1).Type()), zeroFor(tup.At(2).Type())}}
 			}
 			k := is.Elems[is.N]
-			cur := st.heap["map:"+is.Desc]
-			v := cur.M[k.N]
+			var v SV
+			if is.S == "smap" {
+				v = st.heap["smap:"+is.Desc].MS[k.S]
+			} else {
+				cur := st.heap["map:"+is.Desc]
+				v = cur.M[k.N]
+			}
 			is.N++
 			st.heap["iter:"+it.Desc] = is
 			return SV{K: "tuple", Desc: "next", Elems: []SV{symBool(true), k, v}}
@@ -1463,6 +1497,11 @@ func selectFired(p Path) []string {
 		}
 	}
 	return out
+}
+
+func symStr(x string) SV {
+	l := symInt(int64(len(x)))
+	return SV{K: "str", Known: true, S: x, Len: &l, Desc: fmt.Sprintf("%q", x)}
 }
 
 func symTuple(elems ...SV) SV { return SV{K: "tuple", Desc: "t", Elems: elems} }
